@@ -867,6 +867,14 @@ def path_value(fn, d, facts, depth=0):
         if (ck, not cp) in facts:
             return path_value(fn, sd['f'], facts, depth + 1)
         return None
+    if sd.get('k') == 'bin' and sd.get('op') in ('&&', '||'):
+        # a conjunction / disjunction of values known on this path (`return first_ok && second_ok`)
+        lv, rv = path_value(fn, sd['l'], facts, depth + 1), path_value(fn, sd['r'], facts, depth + 1)
+        absorbing = 0 if sd['op'] == '&&' else 1
+        if (lv is not None and bool(lv) == bool(absorbing)) or (rv is not None and bool(rv) == bool(absorbing)):
+            return absorbing
+        if lv is not None and rv is not None:
+            return 1 - absorbing
     if sd.get('tk') == 'bool' or sd.get('k') in ('bin', 'un', 'call', 'tobool'):
         # a condition decided on this path (directly, or `x == A` when the path took `x == B`)
         ca, cp = norm_cond(fn.prog, sd)
